@@ -33,6 +33,91 @@ func (env *Env) subst(t types.Type) types.Type {
 		if ct := coreType(tp); ct != nil {
 			return ct
 		}
+		return t
+	}
+	if len(env.tsubst) == 0 {
+		return t
+	}
+	return env.substDeep(t, 0)
+}
+
+// substDeep replaces type parameters inside composite types.
+func (env *Env) substDeep(t types.Type, depth int) types.Type {
+	if depth > 6 || t == nil {
+		return t
+	}
+	switch x := t.(type) {
+	case *types.Alias:
+		// iter.Seq[T] is an alias of a generic function type
+		if x.TypeArgs() != nil && x.TypeArgs().Len() > 0 {
+			args := make([]types.Type, x.TypeArgs().Len())
+			changed := false
+			for i := range args {
+				args[i] = env.substDeep(x.TypeArgs().At(i), depth+1)
+				if args[i] != x.TypeArgs().At(i) {
+					changed = true
+				}
+			}
+			if changed {
+				if inst, err := types.Instantiate(nil, x.Origin(), args, false); err == nil {
+					return inst
+				}
+			}
+			return t
+		}
+		return env.substDeep(types.Unalias(t), depth+1)
+	case *types.TypeParam:
+		if r, ok := env.tsubst[x]; ok {
+			return r
+		}
+		return t
+	case *types.Named:
+		if x.TypeArgs() != nil && x.TypeArgs().Len() > 0 {
+			args := make([]types.Type, x.TypeArgs().Len())
+			changed := false
+			for i := range args {
+				args[i] = env.substDeep(x.TypeArgs().At(i), depth+1)
+				if args[i] != x.TypeArgs().At(i) {
+					changed = true
+				}
+			}
+			if changed {
+				if inst, err := types.Instantiate(nil, x.Origin(), args, false); err == nil {
+					return inst
+				}
+			}
+		}
+		return t
+	case *types.Pointer:
+		if e := env.substDeep(x.Elem(), depth+1); e != x.Elem() {
+			return types.NewPointer(e)
+		}
+	case *types.Slice:
+		if e := env.substDeep(x.Elem(), depth+1); e != x.Elem() {
+			return types.NewSlice(e)
+		}
+	case *types.Map:
+		k, v := env.substDeep(x.Key(), depth+1), env.substDeep(x.Elem(), depth+1)
+		if k != x.Key() || v != x.Elem() {
+			return types.NewMap(k, v)
+		}
+	case *types.Signature:
+		changed := false
+		mk := func(tu *types.Tuple) *types.Tuple {
+			vs := make([]*types.Var, tu.Len())
+			for i := range vs {
+				nt := env.substDeep(tu.At(i).Type(), depth+1)
+				if nt != tu.At(i).Type() {
+					changed = true
+				}
+				vs[i] = types.NewVar(tu.At(i).Pos(), tu.At(i).Pkg(), tu.At(i).Name(), nt)
+			}
+			return types.NewTuple(vs...)
+		}
+		ps, rs := mk(x.Params()), mk(x.Results())
+		if changed {
+			return types.NewSignatureType(nil, nil, nil, ps, rs, x.Variadic())
+		}
 	}
 	return t
 }
@@ -111,11 +196,23 @@ func (env *Env) zeroArr(sliceSort string, elem types.Type) string {
 	return fmt.Sprintf("((as const (Array Int %s)) %s)", es, z)
 }
 
-// rangeAssume adds the type's value-range facts for a freshly read term.
+// rangeAssume adds the type's value-range facts for a freshly read term. Inside a
+// quantifier body the fact is tagged with the read term as its trigger, so that the
+// quantified axiom built from it is only instantiated on matching reads.
 func (env *Env) rangeAssume(st *State, v Val) {
 	t := env.subst(v.Ty)
 	if t == nil {
 		return
+	}
+	emit := func(fact string) {
+		if len(env.qvars) == 0 {
+			st.assumeOnce(fact)
+			return
+		}
+		if !patternable(v.T) {
+			return
+		}
+		st.assumeOnce("(! " + fact + " :pattern (" + v.T + "))")
 	}
 	if lo, hi, ok := intRange(t); ok {
 		if env.c.bv {
@@ -127,28 +224,53 @@ func (env *Env) rangeAssume(st *State, v Val) {
 		if len(v.T) > 0 && (v.T[0] >= '0' && v.T[0] <= '9') {
 			return
 		}
-		st.assumeOnce(fmt.Sprintf("(and (<= %s %s) (<= %s %s))", smtInt(lo), v.T, v.T, smtInt(hi)))
+		emit(fmt.Sprintf("(and (<= %s %s) (<= %s %s))", smtInt(lo), v.T, v.T, smtInt(hi)))
 		return
 	}
-	if _, isPtr := types.Unalias(t).Underlying().(*types.Pointer); isPtr && !env.c.bv {
-		env.c.allocFact(st, v.T)
+	if _, isPtr := types.Unalias(t).Underlying().(*types.Pointer); isPtr {
 		return
 	}
 	s := env.sortOf(t)
 	if strings.HasPrefix(s, "Sl_") {
-		st.assumeOnce(fmt.Sprintf("(<= 0 (len_%s %s))", s, v.T))
+		if len(env.qvars) > 0 {
+			return // lengths of quantified slice reads: not needed, kept out of the axiom set
+		}
+		emit(fmt.Sprintf("(<= 0 (len_%s %s))", s, v.T))
 		if a, ok := types.Unalias(t).Underlying().(*types.Array); ok {
-			st.assumeOnce(fmt.Sprintf("(= (len_%s %s) %d)", s, v.T, a.Len()))
+			emit(fmt.Sprintf("(= (len_%s %s) %d)", s, v.T, a.Len()))
 		}
 	}
-	if strings.HasPrefix(s, "Mp_") {
-		st.assumeOnce(fmt.Sprintf("(<= 0 (mc_%s %s))", s, v.T))
+	if strings.HasPrefix(s, "Mp_") && len(env.qvars) == 0 {
+		emit(fmt.Sprintf("(<= 0 (mc_%s %s))", s, v.T))
 	}
+}
+
+func patternable(t string) bool {
+	for _, p := range []string{"(select ", "(f_St_", "(apply", "(seq_at", "(|", "(arr_", "(mv_", "(tassert_", "(box_"} {
+		if strings.HasPrefix(t, p) {
+			return true
+		}
+	}
+	return false
 }
 
 // havoc returns a fresh unconstrained value of type t (with its range facts).
 func (env *Env) havoc(st *State, name string, t types.Type) Val {
 	t = env.subst(t)
+	if len(env.qvars) > 0 {
+		// inside a quantifier body a fresh value is a skolem function of the bound variables
+		c := env.c
+		c.nfresh++
+		fn := fmt.Sprintf("|%s!%d|", sanitize(name), c.nfresh)
+		var sorts []string
+		for _, q := range env.qvars {
+			sorts = append(sorts, strings.TrimSuffix(strings.SplitN(q, " ", 2)[1], ")"))
+		}
+		c.decls.declFun(fn, sorts, env.sortOf(t))
+		v := Val{T: app(fn, env.qnames...), Ty: t}
+		env.rangeAssume(st, v)
+		return v
+	}
 	v := Val{T: env.c.fresh(name, env.sortOf(t)), Ty: t}
 	env.rangeAssume(st, v)
 	return v
@@ -439,6 +561,11 @@ func (env *Env) evalIdent(x *ast.Ident, st *State) Val {
 	if v, ok := env.bound[x.Name]; ok {
 		return v
 	}
+	if env.contract {
+		if v, ok := st.ghost[x.Name]; ok && v.Ty != nil {
+			return v
+		}
+	}
 	switch x.Name {
 	case "true", "false":
 		return boolVal(x.Name)
@@ -499,6 +626,9 @@ func (c *Ctx) declSentinel(name string) {
 	c.decls.axioms = append(c.decls.axioms, fmt.Sprintf("(> %s 0)", name))
 	for o := range c.sentinels {
 		c.decls.axioms = append(c.decls.axioms, fmt.Sprintf("(distinct %s %s)", name, o))
+	}
+	for _, fe := range c.freshErrs {
+		c.decls.axioms = append(c.decls.axioms, fmt.Sprintf("(distinct %s %s)", name, fe))
 	}
 	c.sentinels[name] = true
 }
@@ -621,7 +751,7 @@ func (env *Env) evalBinary(x *ast.BinaryExpr, st *State) Val {
 		n := len(st.pc)
 		st.pc = append(st.pc, a)
 		b := env.evalBool(x.Y, st)
-		st.pc = dropAssumption(st.pc, n, a)
+		st.pc = dropAssumption(st, n, a)
 		return boolVal(and(a, b))
 	case token.LOR:
 		a := env.evalBool(x.X, st)
@@ -629,7 +759,7 @@ func (env *Env) evalBinary(x *ast.BinaryExpr, st *State) Val {
 		na := not(a)
 		st.pc = append(st.pc, na)
 		b := env.evalBool(x.Y, st)
-		st.pc = dropAssumption(st.pc, n, na)
+		st.pc = dropAssumption(st, n, na)
 		return boolVal(or(a, b))
 	}
 	a := env.eval(x.X, st)
@@ -734,14 +864,27 @@ func (env *Env) evalBinary(x *ast.BinaryExpr, st *State) Val {
 	return r
 }
 
-func dropAssumption(pc []string, n int, a string) []string {
-	// remove the temporary assumption at index n, keep anything added after it
-	// (read-time facts stay valid only under a; guard them)
+func dropAssumption(st *State, n int, a string) []string {
+	// remove the temporary assumption at index n, keep anything added after it:
+	// read-time type facts are unconditionally true and stay as they are, everything
+	// else (callee postconditions ...) holds only under a and is guarded
+	pc := st.pc
 	if len(pc) == n+1 {
 		return pc[:n]
 	}
 	out := append([]string(nil), pc[:n]...)
 	for _, p := range pc[n+1:] {
+		if st.seen[p] {
+			out = append(out, p)
+			continue
+		}
+		if strings.HasPrefix(p, "(! ") {
+			// keep the trigger annotation outermost
+			if i := strings.LastIndex(p, " :pattern "); i > 0 {
+				out = append(out, "(! "+implies(a, p[3:i])+p[i:])
+				continue
+			}
+		}
 		out = append(out, implies(a, p))
 	}
 	return out
@@ -875,6 +1018,9 @@ func (env *Env) selectField(v Val, name string, st *State, pos token.Pos) Val {
 	ssort := env.structSortOf(vt)
 	if isPtr {
 		key := ssort + "." + name
+		if k := ptrKind(env, ft); k != 0 {
+			env.c.ptrField[key] = k
+		}
 		h := env.heapTerm(st, key, env.sortOf(ft))
 		env.lockDiscipline(st, v, ssort, name, pos)
 		r := Val{T: app("select", h, v.T), Ty: ft}
@@ -907,6 +1053,14 @@ func (env *Env) heapTerm(st *State, key, sort string) string {
 	env.c.decls.declConst(name, fmt.Sprintf("(Array Int %s)", sort))
 	env.c.heapSorts[key] = sort
 	st.heap[key] = name
+	// the entry heap does not point to objects allocated by this function
+	if k := env.c.ptrField[key]; k != 0 {
+		for _, r := range env.c.freshList {
+			for _, f := range notPointsTo(name, k, r) {
+				st.assume(f)
+			}
+		}
+	}
 	if env.c.entry != nil {
 		if _, ok := env.c.entry.heap[key]; !ok {
 			env.c.entry.heap[key] = name
@@ -948,6 +1102,23 @@ func (env *Env) evalSelector(x *ast.SelectorExpr, st *State) Val {
 				c.unsupported("%s: unresolved %s.%s", c.e.pos(x.Pos()), id.Name, x.Sel.Name)
 				return Val{T: c.fresh("unk", "Int"), Ty: tInt}
 			}
+		}
+	}
+	// method expression T.m or (*T).m
+	if tt := env.asType(x.X); tt != nil {
+		obj, _, _ := types.LookupFieldOrMethod(tt, true, env.pkg.types, x.Sel.Name)
+		if f, ok := obj.(*types.Func); ok {
+			fi := c.e.lookupFunc(f)
+			sig := f.Type()
+			if !env.contract {
+				if t := env.pkg.info.TypeOf(x); t != nil {
+					sig = t
+				}
+			}
+			if fi == nil {
+				fi = &FuncInfo{Key: f.FullName(), Obj: f}
+			}
+			return Val{T: c.fresh("mexpr_"+f.Name(), env.sortOf(sig)), Ty: sig, Fn: &Closure{Func: fi, Env: env}}
 		}
 	}
 	v := env.eval(x.X, st)
@@ -1215,6 +1386,9 @@ func (env *Env) newObjectOf(cl *ast.CompositeLit, st *State, t types.Type) Val {
 		f := sty.Field(i)
 		key := ssort + "." + f.Name()
 		fs := env.sortOf(f.Type())
+		if k := ptrKind(env, f.Type()); k != 0 {
+			c.ptrField[key] = k
+		}
 		h := env.heapTerm(st, key, fs)
 		st.heap[key] = app("store", h, ref, app(fieldSel(ssort, f.Name()), sv.T))
 	}
@@ -1235,15 +1409,71 @@ func (env *Env) allocRef(st *State, t types.Type) string {
 	c := env.c
 	ref := c.fresh("new_"+mangle(env.sortOf(t)), "Int")
 	st.assume(fmt.Sprintf("(> %s 0)", ref))
-	// fresh: outside the entry allocation set and different from every object allocated so far
-	c.decls.declConst("alloc0", "(Array Int Bool)")
-	st.assume(fmt.Sprintf("(not (select alloc0 %s))", ref))
-	for _, o := range c.freshList {
-		st.assume(fmt.Sprintf("(distinct %s %s)", ref, o))
-	}
+	c.freshFacts(env, st, ref)
 	c.freshList = append(c.freshList, ref)
 	c.freshRefs[ref] = true
 	return ref
+}
+
+// freshFacts: a newly allocated object is different from every parameter, from every
+// object allocated before, and nothing in the current heap or in a local slice points to it.
+func (c *Ctx) freshFacts(env *Env, st *State, ref string) {
+	for _, o := range c.freshList {
+		st.assume(fmt.Sprintf("(distinct %s %s)", ref, o))
+	}
+	for _, o := range c.knownRefs {
+		st.assume(fmt.Sprintf("(distinct %s %s)", ref, o))
+	}
+	for _, key := range sortedKeys(c.ptrField) {
+		h, ok := st.heap[key]
+		if !ok {
+			continue
+		}
+		for _, f := range notPointsTo(h, c.ptrField[key], ref) {
+			st.assume(f)
+		}
+	}
+	for o, v := range st.vars {
+		if v.T == "" || v.Ty == nil {
+			continue
+		}
+		switch ptrKind(env, o.Type()) {
+		case 1:
+			if !c.freshRefs[v.T] && v.T != "0" {
+				st.assume(fmt.Sprintf("(distinct %s %s)", ref, v.T))
+			}
+		case 2:
+			s := env.sortOf(v.Ty)
+			st.assume(fmt.Sprintf("(forall ((j Int)) (! (not (= (select (arr_%s %s) j) %s)) :pattern ((select (arr_%s %s) j))))", s, v.T, ref, s, v.T))
+		}
+	}
+}
+
+// ptrKind: 1 = pointer, 2 = slice of pointers, 0 = other.
+func ptrKind(env *Env, t types.Type) int {
+	t = types.Unalias(env.subst(t))
+	if t == nil {
+		return 0
+	}
+	switch u := t.Underlying().(type) {
+	case *types.Pointer:
+		return 1
+	case *types.Slice:
+		if _, ok := types.Unalias(env.subst(u.Elem())).Underlying().(*types.Pointer); ok {
+			return 2
+		}
+	}
+	return 0
+}
+
+func notPointsTo(h string, kind int, ref string) []string {
+	switch kind {
+	case 1:
+		return []string{fmt.Sprintf("(forall ((x Int)) (! (not (= (select %s x) %s)) :pattern ((select %s x))))", h, ref, h)}
+	case 2:
+		return []string{fmt.Sprintf("(forall ((x Int) (j Int)) (! (not (= (select (arr_Sl_Int (select %s x)) j) %s)) :pattern ((select (arr_Sl_Int (select %s x)) j))))", h, ref, h)}
+	}
+	return nil
 }
 
 // derefStruct builds the struct value *p from the heap.
@@ -1320,16 +1550,3 @@ func (env *Env) ghostFieldType(t types.Type, name string) types.Type {
 	return gt
 }
 
-// allocFact: every reference read from a variable, field or element is nil, allocated at
-// entry, or one of the objects allocated since.
-func (c *Ctx) allocFact(st *State, ref string) {
-	if ref == "0" || c.freshRefs[ref] {
-		return
-	}
-	c.decls.declConst("alloc0", "(Array Int Bool)")
-	alts := []string{eq(ref, "0"), app("select", "alloc0", ref)}
-	for _, f := range c.freshList {
-		alts = append(alts, eq(ref, f))
-	}
-	st.assumeOnce(or(alts...))
-}
